@@ -167,6 +167,13 @@ func vfGen(r *vu.Rng, kind string) []string {
 			g.add("maxframe %d", maxFrames[r.Intn(len(maxFrames))])
 		case x < 71:
 			g.add("dump")
+		case x < 72 && kind == "p9218":
+			pool := []string{"u=3, i", "u=0", "u=7, i=?0", "u=8", "u=-1", "i, u=5", "u=2;x=1, i=?1", "", "u=3,", "U=1", "u=1.5", "i=1", "u=\"3\"", "a=1, u=6, b, i"}
+			str := pool[r.Intn(len(pool))]
+			if r.Chance(1, 5) {
+				str = string(r.BytesFrom("ui=?01, ;7", r.Intn(12)))
+			}
+			g.add("pparse %s %d", vu.Hex([]byte(str)), r.Intn(2))
 		case x < 73 && g.violate:
 			// contract violations (the oracle switches itself off; the model must still agree)
 			switch r.Intn(4) {
